@@ -224,7 +224,7 @@ def expr_runs(tier, seed, flavour="plain", scalars=("Q", "d"), nrandom=None,
     return runs
 
 
-EXPR_RULE = ("programs: a committed catalogue of 65 operator expressions "
+EXPR_RULE = ("programs: a committed catalogue of 69 operator expressions "
              "(every scalar overload c*E E*c E/c E+c c+E E-c c-E -E with the "
              "spline's own type and with int/long/unsigned/size_t (and, for "
              "floating types, float/double/long double) scalars, sums of "
@@ -612,7 +612,10 @@ reg(Spec(
           "the exactness bound); where 2n-1 >= o1+o2+d: |numeric - "
           "BilinearForm{sum w_k X<k>}(m1,m2)| and |numeric - exact integral| "
           "<= 2^20 eps S with S = sum over common intervals of width * "
-          "(sum|w_k||x|^k)(sum|c1_i|h^i)(sum|c2_j|h^j). Non-trivial: exact "
+          "(sum|w_k||x|^k)(sum|c1_i|h^i)(sum|c2_j|h^j). Constant weights "
+          "returned as int, long, bool, unsigned, float and double (a type "
+          "other than the splines' scalar) must give the same integral. "
+          "Non-trivial: exact "
           "rule with a non-zero exact integral; distinct by full input."),
     required=["rule:exact", "rule:below-exactness-bound", "rule:at-the-bound",
               "sampling-region-checked", "values-compared",
@@ -620,7 +623,8 @@ reg(Spec(
              ["place:" + p for p in PLACEMENTS] +
              ["n:%d" % i for i in range(1, 9)] +
              ["n:%d" % i for i in (9, 10, 12, 16, 20, 32)] +
-             ["wide-catalogue", "orders:6,6"] +
+             ["wide-catalogue", "orders:6,6", "weight-return-type:int",
+              "weight-return-type:float", "weight-return-type:bool"] +
              ["weight-degree:%d" % i for i in range(4)],
     assumptions=[DYADIC, "float, double, long double (boost's Gauss-Legendre "
                  "needs a floating type)"],
@@ -655,8 +659,8 @@ def c18_runs(tier, seed):
 
 reg(Spec(
     "C18", "concurrent read-only use is race-free and deterministic", c18_runs,
-    rule=("one case = one round: shared const objects are built (grid + equal "
-          "twin instance, generator, B-spline bases of orders 0..3, splines on "
+    rule=("one case = one round: shared const objects are built (grid of 7..10 "
+          "or, one round in four, 65..100 points + equal twin instance, generator, B-spline bases of orders 0..3, splines on "
           "sub-windows and on the twin grid, an operator with a spline factor, "
           "const bilinear and linear forms), then 2..32 threads leave a start "
           "barrier and each runs a script of 24 actions that depends only on "
@@ -682,6 +686,7 @@ reg(Spec(
           "distinct_nontrivial counts distinct (round, order in "
           "which the threads completed their first action) signatures."),
     required=["rounds", "operations", "threads:2", "threads:32",
+              "shared-grid:large",
               "overlap:evaluate|evaluate", "overlap:add|multiply",
               "overlap:apply-X|apply-X", "overlap:compare|own-grid-instance",
               "overlap:copy-destroy|copy-destroy",
@@ -736,14 +741,17 @@ reg(Spec(
           "dbgstl (checked STL) flavours; any sanitizer report, debug-mode "
           "diagnostic or fatal signal is a violation. Diffusion: grids of "
           "2,3,4,5,6,8,10,11,12,13,14,17,21,30,40 points (uniform, random "
-          "widths, off-centre), constant or piecewise-constant positive D "
+          "widths, off-centre, two fine layers of 0.01 bridged by one element "
+          "of 1.0, graded 2x per interval up to 256x, alternating 0.02 / 0.9), "
+          "constant or piecewise-constant positive D "
           "with jumps of 50x and 1000x, boundary values of both signs and "
           "zero; oracle: c attains the prescribed values at both ends (1e-9 "
           "* scale), scaling D by 2 and 3 changes c by <= 1e-6 * scale on "
           "every grid point and 4 raster points per interval, constant D gives "
-          "the straight line (1e-9 * scale), c(s,e) = s*c(1,0) + e*c(0,1) and "
-          "the mirrored problem (reflected grid and coefficient, swapped "
-          "boundary values) gives the mirrored solution (1e-6 * scale); a "
+          "the straight line (1e-8 * scale), c(s,e) = s*c(1,0) + e*c(0,1) "
+          "(1e-6 * scale) and the mirrored problem (reflected grid and "
+          "coefficient, swapped boundary values) gives the mirrored solution "
+          "(1e-5 * scale); a "
           "coefficient given on a window of the grid is either refused with "
           "BSplineException or solved. Spline potential: x^2/2 and "
           "cosh-type potentials interpolated on 21..56 points, random cubic "
@@ -772,7 +780,9 @@ reg(Spec(
                  "5e-13 (boundary), 2.7e-11 (scaling, heavy-tailed), 6.4e-13 "
                  "(straight line), 6.5e-14 (eigenvalue shift), 2.6e-12 "
                  "(linearity), 1.2e-11 (diffusion mirror), 1.6e-12 (potential "
-                 "mirror), 6.5e-3 (harmonic low states)", "agreement with the "
+                 "mirror), 6.5e-3 (harmonic low states); with the layered and "
+                 "graded grids (12 000 more cases): 8e-13 boundary, 6e-11 "
+                 "scaling, 4e-12 straight line, 8e-11 linearity, 2.8e-10 mirror", "agreement with the "
                  "solution of the continuous diffusion problem is not judged: "
                  "with jumps of 1000x the smooth order-10 basis deviates from "
                  "the kinked exact solution by up to 0.8 |end-start| on the "
@@ -1044,6 +1054,7 @@ reg(Spec(
               "checked:linear-form", "checked:evaluate-order6",
               "checked:X<3>-order6", "checked:Dx<5>-order6",
               "checked:linear-form-order6", "checked:bilinear-form-order6",
+              "checked:X<5>-order6", "checked:X<6>-order6",
               "digest-pairs-compared"],
     assumptions=[DYADIC, "x86-64: SSE2 for float/double, x87 for long double, "
                  "no FMA contraction; bit-equality across optimisation levels "
